@@ -6,3 +6,5 @@ def install_all(reg):
     space_utils.install(reg)
     deps.install(reg)
     succession_diagram.install(reg)
+    from . import algorithms
+    algorithms.install(reg)
